@@ -108,7 +108,8 @@ Vocabulary == {"\"(\"", "\")\"", "\",\"", "\"-\"", "\".\"", "\";\"", "\"<\"", "\
                "INTERFACE", "LIST", "MAP", "ONEWAY", "PACKAGE", "PARCELABLE", "PRIMITIVE", "QUOTED_STRING",
                "RESERVED_KEYWORD", "STRING", "VOID"}
 
-SyntaxIx(ds) == SortedSeq({k \in DOMAIN ds : ds[k].tag = "syntax"})
+\* the diagnostics that came out of the parser's error formatter (marked by the hook, independent of wording)
+SyntaxIx(ds) == SortedSeq({k \in DOMAIN ds : ds[k].synt})
 
 \* every token kind of the expectation vector is named in the message, and nothing else is
 ExpectedNamed(d, v) ==
@@ -149,7 +150,7 @@ JudgeDoc(e, d) ==
              \E k \in DOMAIN S : o.diags[S[k]].r = errRange
                                   /\ \A j \in DOMAIN S : o.diags[S[j]].r[1] >= errRange[1])
      /\ J("C04", e, "transact-code diagnostic is not on the number",
-          pr.ok => \A k \in DOMAIN o.diags : o.diags[k].tag = "code_overflow" =>
+          pr.ok => \A k \in DOMAIN o.diags : ~o.diags[k].synt =>
                        \E i \in bad : o.diags[k].r = Span(tk, tab, pr.ns[i].x.ck, pr.ns[i].x.ck))
      /\ J("C18", e, "documentation of a construct",
           (pr.ok /\ o.has_tree /\ Len(o.nodes) = Len(pr.ns)) => DocsOK(pr.ns, o.nodes, d, tk))
